@@ -67,7 +67,7 @@ func runW2Model(r *Result, dp *DriverPool, cs w2Case) bool {
 			var res callRes
 			switch op.Kind {
 			case "write":
-				p := unhxe(op.Data)
+				p := cs.data(op)
 				res = guard(func() (int, error) { return w.Write(p) })
 				calls = append(calls, "W"+hxe(p))
 			case "flush":
